@@ -38,7 +38,7 @@ var assumptionsScript = []string{
 	"the deadman service handed to CreatePipeline is not global and its id/message templates do not contain NODE_NAME",
 	"no UDF nodes, no global scope functions (time(), influxql builtins): the pure packages are used with stateful.NewScope(), not kapacitor.TaskMaster.CreateTICKScope",
 	"constant expressions never divide by zero (integer: C05's subject; float: no Inf/NaN constants) and do not overflow int64 nanoseconds",
-	"comments are placed only where the lexer accepts them: not directly before + * / % == != < > <= >= =~ !~ = (after a comment the lexer is in its top-level state), not directly before a regex literal (a comment line followed by a line starting with '/' is lexed as one comment), not directly after = =~ !~ (\"//\" is an empty regex there)",
+	"comments are placed only where the lexer accepts them: not directly before + * / % == != < > <= >= =~ !~ = (after a comment the lexer is in its top-level state, where these are not recognised), not directly after = =~ !~ (\"//\" is an empty regex there)",
 	"a regex literal is written only where the lexer expects an operand (after =~ !~ = ( ,); the empty regex // only directly after =~ !~ =; x =~ /re/ == y is written (x =~ /re/) == y (no comparison operator is recognised after a regex)",
 	"string values ending in a backslash are written in triple quotes (the only way to write them), reference names never end in a backslash (not writable)",
 	"file modes of the alert log handler are positive",
@@ -262,6 +262,7 @@ const rulePipeline = "same generator as Script (lighter layout noise); for accep
 	"compared by the id-independent fingerprint; non-trivial = accepted script with >= 3 nodes and a lambda with >= 2 operators of different precedence; distinct by case hash"
 
 var assumptionsPipeline = []string{
+	"language limits, excluded by construction for the pipeline/tick law and counted (L1, L2): a string value that ends in a backslash and also contains ''' has no literal form (constant concatenations do not end in a backslash); the empty regex can only be written directly after =~ !~ = (an empty regex var is not used as a function argument)",
 	"each case is checked against one law (json: Marshal -> Unmarshal; tick: pipeline/tick rendering -> CreatePipeline); the generator avoids, per law, what that round trip is known to lose (counted exclusions J*, T*, K*)",
 	"the parameters of InfluxQL function nodes live in closures: the node's own reducers are run on a fixed series and their output is part of the fingerprint (holtWinters excepted: its fit is an expensive optimisation)",
 	"node ids/names are not part of a pipeline's meaning: the comparison uses the canonical fingerprint (multiset of node type + exported properties + ordered parent signatures); NoOp nodes are ignored (pipeline JSON and pipeline/tick drop them by design)",
